@@ -17,10 +17,11 @@ import (
 
 func TestMain(m *testing.M) { stats.Main(m, "C05") }
 
-const ruleTypes = "all node-type sequences of length 0..5 over {filter, formatter, sink, formatter-filter, unknown type} registered as one pipeline on a fresh broker (exhaustive, 3906 sequences); oracle = acceptance predicate of the statement + delivery/IsAnyPipelineRegistered of the resulting state; non-trivial = length >= 3"
+const ruleTypes = "all node-type sequences of length 0..5 over {filter, formatter, sink, formatter-filter, unknown type 0, and 258 / 260 / -252 which equal a real type modulo 256} registered as one pipeline on a fresh broker (exhaustive, 37449 sequences); oracle = acceptance predicate of the statement + delivery/IsAnyPipelineRegistered of the resulting state; non-trivial = length >= 3"
 const ruleHist = "rapid histories over RegisterNode(id in 4 ids+\"\", 6 type values, policy default/allow/deny/invalid), RegisterPipeline(pid in 3+\"\", type in 2+\"\", 0-5 ids from registered/unregistered/\"\"), RemoveNode, RemovePipelineAndNodes, RemovePipeline; oracle = acceptance predicate, and for every failing call the observable state (delivery per type, IsAnyPipelineRegistered, RemoveNode class of every id on replayed copies) before == after; non-trivial = a failing call after >=1 successful pipeline registration; distinct = history descriptor"
 
-var kinds = []int{int(eventlogger.NodeTypeFilter), int(eventlogger.NodeTypeFormatter), int(eventlogger.NodeTypeSink), int(eventlogger.NodeTypeFormatterFilter), 0}
+// the four node types, an unknown small value, and values that only differ from a real type in their high bits
+var kinds = []int{int(eventlogger.NodeTypeFilter), int(eventlogger.NodeTypeFormatter), int(eventlogger.NodeTypeSink), int(eventlogger.NodeTypeFormatterFilter), 0, 258, 260, -252}
 
 func TestC05TypeSequences(t *testing.T) {
 	if rp := stats.ReplayFile("TestC05TypeSequences"); rp != nil {
@@ -118,13 +119,13 @@ func TestC05Histories(t *testing.T) {
 	sec := stats.Sec("histories", ruleHist)
 	maxOps := stats.EnvInt("C05_MAXOPS", 12)
 	ets := []string{"A", "B"}
-	nodeIDs := []string{"a", "b", "c", "d"}
-	allIDs := []string{"a", "b", "c", "d", "zz"}
-	typeVals := []int{1, 2, 2, 3, 3, 4, 0, 99}
+	nodeIDs := []string{"a", "b", "c", "d", " "}
+	allIDs := []string{"a", "b", "c", "d", "zz", " "}
+	typeVals := []int{1, 2, 2, 3, 3, 4, 0, 99, 258, 260, -252, 1<<32 + 2}
 	opGen := rapid.Custom(func(t *rapid.T) model.Op {
 		switch rapid.SampledFrom([]int{0, 0, 0, 1, 1, 1, 1, 2, 3, 4}).Draw(t, "k") {
 		case 0:
-			id := rapid.SampledFrom([]string{"a", "b", "c", "d", "a", "b", "c", "d", ""}).Draw(t, "n")
+			id := rapid.SampledFrom([]string{"a", "b", "c", "d", "a", "b", "c", "d", "", " "}).Draw(t, "n")
 			nt := rapid.SampledFrom(typeVals).Draw(t, "nt")
 			if rapid.IntRange(0, 2).Draw(t, "intended") > 0 {
 				switch id {
@@ -139,16 +140,16 @@ func TestC05Histories(t *testing.T) {
 				CloseErr: rapid.IntRange(0, 5).Draw(t, "closeErr") == 0}
 		case 1:
 			if rapid.Bool().Draw(t, "likelyValid") {
-				ids := rapid.SliceOfN(rapid.SampledFrom([]string{"a", "b", "c"}), 0, 2).Draw(t, "inner")
+				ids := rapid.SliceOfN(rapid.SampledFrom([]string{"a", "b", "c", " "}), 0, 2).Draw(t, "inner")
 				ids = append(ids, "c", "d")
 				return model.Op{K: "regpipe", ET: rapid.SampledFrom([]string{"A", "B"}).Draw(t, "et"), P: rapid.SampledFrom([]string{"p", "q", "r"}).Draw(t, "p"), IDs: ids,
 					Pol: rapid.SampledFrom([]int{0, 0, 0, 1, 2}).Draw(t, "ppol")}
 			}
-			ids := rapid.SliceOfN(rapid.SampledFrom([]string{"a", "b", "c", "d", "a", "b", "c", "d", "a", "b", "c", "d", "zz", ""}), 0, 5).Draw(t, "ids")
+			ids := rapid.SliceOfN(rapid.SampledFrom([]string{"a", "b", "c", "d", "a", "b", "c", "d", "a", "b", "c", "d", "zz", "", " "}), 0, 5).Draw(t, "ids")
 			return model.Op{K: "regpipe", ET: rapid.SampledFrom([]string{"A", "A", "B", "B", "A", "B", ""}).Draw(t, "et"),
 				P: rapid.SampledFrom([]string{"p", "q", "r", "p", "q", "r", ""}).Draw(t, "p"), IDs: ids, Pol: rapid.SampledFrom([]int{0, 0, 0, 1, 2, 3}).Draw(t, "ppol"), Dress: rapid.SampledFrom([]int{0, 0, 0, 1, 2, 3}).Draw(t, "pdress")}
 		case 2:
-			return model.Op{K: "rmnode", N: rapid.SampledFrom([]string{"a", "b", "c", "d", "zz", ""}).Draw(t, "n"), CtxDone: rapid.IntRange(0, 3).Draw(t, "ctxDone") == 0}
+			return model.Op{K: "rmnode", N: rapid.SampledFrom([]string{"a", "b", "c", "d", "zz", "", " "}).Draw(t, "n"), CtxDone: rapid.IntRange(0, 3).Draw(t, "ctxDone") == 0}
 		case 3:
 			return model.Op{K: "rpan", ET: rapid.SampledFrom([]string{"A", "B", "C", ""}).Draw(t, "et"), P: rapid.SampledFrom([]string{"p", "q", "r", ""}).Draw(t, "p"), CtxDone: rapid.IntRange(0, 2).Draw(t, "ctxDone") == 0}
 		default:
